@@ -65,6 +65,10 @@ func (e *vExpr) String() string {
 		return fmt.Sprintf("P%d", e.prod)
 	case "uni":
 		return "U"
+	case "eof":
+		return "EOF"
+	case "anylit":
+		return `""`
 	case "seq":
 		return "(" + e.a.String() + " " + e.b.String() + ")"
 	case "alt":
@@ -126,7 +130,7 @@ func vEnum(size, nprod int, memo map[int][]*vExpr) []*vExpr {
 			out = append(out, &vExpr{op: "prod", prod: i})
 		}
 		if vWithUnion {
-			out = append(out, &vExpr{op: "uni"})
+			out = append(out, &vExpr{op: "uni"}, &vExpr{op: "eof"}, &vExpr{op: "anylit"})
 		}
 	} else {
 		for _, u := range vUnary {
@@ -166,6 +170,10 @@ func specNullable(e *vExpr, bodies []*vExpr, nul []bool) bool {
 	case "alt":
 		return specNullable(e.a, bodies, nul) || specNullable(e.b, bodies, nul)
 	case "opt", "star", "lookpos", "lookneg":
+		return true
+	case "eof", "anylit":
+		// a reference to the EOF token, and an untyped "" literal (which matches any token, EOF included), match at
+		// the end of the input without consuming anything
 		return true
 	case "plus", "cap", "paren":
 		return specNullable(e.a, bodies, nul)
@@ -273,6 +281,10 @@ func vBuild(e *vExpr, prods []*strct) node {
 		return &literal{s: "a\"\\b", t: lexer.EOF}
 	case "prod":
 		return prods[e.prod]
+	case "eof":
+		return &reference{typ: lexer.EOF, identifier: "EOF"}
+	case "anylit":
+		return &literal{s: "", t: lexer.EOF}
 	case "uni":
 		u := &union{unionDef: unionDef{typ: reflect.TypeOf((*fmt.Stringer)(nil)).Elem()}}
 		for _, m := range vUnionMembers(len(prods)) {
@@ -368,7 +380,7 @@ func validateNoPanic(n node) (err error, panicked interface{}) {
 // re-enter itself before consuming a token.
 func TestVerif_C08_LeftRecursion(t *testing.T) {
 	res := &verifResult{Check: "validate left recursion", Property: "C08", Exhaustive: true,
-		Bound: "all grammars with one production whose body has <= 4 (thorough: 5) operator/leaf nodes, and all grammars with two productions with bodies of <= 3 (thorough: P0 <= 3, P1 <= 4) nodes, over {literal, production reference, a union-typed reference (members: the other production), sequence, choice, ? * + !, ~, (?= ), (?! ), capture, redundant parentheses}; node graphs built directly in-package",
+		Bound: "all grammars with one production whose body has <= 4 (thorough: 5) operator/leaf nodes, and all grammars with two productions with bodies of <= 3 (thorough: P0 <= 3, P1 <= 4) nodes, over {literal, production reference, a union-typed reference (members: the other production), a reference to the EOF token, an untyped \"\" literal, sequence, choice, ? * + !, ~, (?= ), (?! ), capture, redundant parentheses}; node graphs built directly in-package",
 		Rule: "distinct grammars; non-trivial = the specification says left-recursive, or the grammar has a nullable prefix / second alternative before a production reference"}
 	one, twoA, twoB := 4, 3, 3
 	if verifThorough() {
